@@ -65,6 +65,7 @@ func mutateTok(v string, n int) string {
 // required scopes, payload truthfulness, for every token of a history and mutants.
 func c09http(c *run.Ctx) {
 	c09LeanSession(c)
+	c09ReservedExtras(c)
 	c09IntegratorStrategy(c)
 	n := c.N(48, 4000)
 	c.Need("http_active_true", 1)
@@ -427,6 +428,64 @@ func c09LeanSession(c *run.Ctx) {
 			}
 		}
 	}
+}
+
+// c09ReservedExtras: the session's extra claims (data the integrator attaches, often taken from an upstream identity) travel in
+// the introspection response, but they must not displace what the endpoint itself reports: whether the token is active, its
+// client, subject, scopes, audience and expiry.
+func c09ReservedExtras(c *run.Ctx) {
+	if !c.Mine(6) && c.NShards > 6 {
+		return
+	}
+	hostile := map[string]interface{}{"active": false, "client_id": "extra-client", "sub": "extra-sub", "scope": "admin", "aud": []string{"https://extra.example"}, "exp": 1, "iat": 1, "username": "extra-user", "tenant": "t-9"}
+	w := world.New(world.Opts{SessFactory: func(sub string) fosite.Session {
+		s := &leanSess{Sub: sub, Ext: map[string]interface{}{}}
+		for k, v := range hostile {
+			s.Ext[k] = v
+		}
+		if sub != "" {
+			s.User = "login-of-" + sub
+		}
+		return s
+	}})
+	a := world.Basic("conf-a", "secret-of-a")
+	az := w.Authorize(url.Values{"client_id": {"conf-a"}, "response_type": {"code"}, "scope": {"fosite offline"}, "state": {"state-0123456789"}, "redirect_uri": {"https://app-a.example/cb"}}, world.Consent{Subject: "user-9"})
+	ut := w.Token(url.Values{"grant_type": {"authorization_code"}, "code": {az.Params.Get("code")}, "redirect_uri": {"https://app-a.example/cb"}}, a)
+	if ut.Err != nil {
+		c.Inconcl("reserved-extras world could not issue tokens: " + world.ErrDetail(ut.Err))
+		return
+	}
+	for _, kind := range []string{"access_token", "refresh_token"} {
+		out := w.IntrospectHTTP(url.Values{"token": {ut.S(kind)}}, world.Basic("conf-b", "secret-of-b"), "")
+		c.Case(fmt.Sprintf("reserved-extras %s body-active=%v", kind, out.JSON["active"]))
+		c.Count("c09_reserved_extras_probes", 1)
+		bad := []string{}
+		if act, _ := out.JSON["active"].(bool); !act {
+			bad = append(bad, fmt.Sprintf("active=%v (the token is live)", out.JSON["active"]))
+		}
+		if out.JSON["client_id"] != "conf-a" {
+			bad = append(bad, fmt.Sprintf("client_id=%v", out.JSON["client_id"]))
+		}
+		if out.JSON["sub"] != "user-9" {
+			bad = append(bad, fmt.Sprintf("sub=%v", out.JSON["sub"]))
+		}
+		if sc, _ := out.JSON["scope"].(string); strings.Contains(" "+sc+" ", " admin ") {
+			bad = append(bad, fmt.Sprintf("scope=%v", out.JSON["scope"]))
+		}
+		if au := fmt.Sprint(out.JSON["aud"]); strings.Contains(au, "extra.example") {
+			bad = append(bad, "aud="+au)
+		}
+		if ex, ok := out.JSON["exp"].(float64); ok && ex == 1 {
+			bad = append(bad, "exp=1")
+		}
+		if out.JSON["username"] == "extra-user" {
+			bad = append(bad, "username=extra-user")
+		}
+		if len(bad) > 0 {
+			c.Violate(run.Violation{Kind: "payload", Key: "payload reserved-extras: an extra claim displaced what the endpoint reports (" + kind + ")", Detail: strings.Join(bad, "; ") + " | body " + out.Body})
+		}
+	}
+	c.Sample(map[string]interface{}{"reserved_extras": "session extra claims named active / client_id / sub / scope / aud / exp / iat / username"})
 }
 
 // hexStrategy is an integrator-written token strategy: tokens are 64 hex characters of randomness (no dot, no prefix), the
